@@ -66,9 +66,14 @@ CLAIMED = {
              "fails; a 1 s time step), in default and LCM mode, each transition executed on the real StreamWorkflowReplicationMessages -> "
              "handleStream -> StreamForwarder.Run in a synctest bubble. Oracles: each side received a prefix of what the other emitted, all of "
              "it while nothing has ended; after an ending the handler returns within the 1 s CloseSend guard, the source stream is half-closed "
-             "or cancelled and its context cancelled, and no goroutine of the bubble is left blocked (leak detection by the bubble itself).",
-        note="Trusted: fake stream endpoints and the well-behaved-peer rule (EOF after CloseSend). Which ready case a Go select takes is left to "
-             "the runtime (both outcomes satisfy the oracle); goroutine interleavings inside one cascade are not enumerated at this level.",
+             "or cancelled and its context cancelled, and no goroutine of the bubble is left blocked (leak detection by the bubble itself). "
+             "Micro: StreamForwarder.Run's two pump goroutines and the shutdown cascade under the cooperative scheduler (rewritten "
+             "admin_stream_transfer.go: channel operations, goroutine starts, locks are scheduling points) with an environment thread that "
+             "emits one response, one sync-state and one ending; all schedules with <=2 (thorough 3) departures from the default schedule, "
+             "same oracles.",
+        note="Trusted: fake stream endpoints and the well-behaved-peer rule (EOF after CloseSend). At the macro level which ready case a Go "
+             "select takes is left to the runtime (both outcomes satisfy the oracle); the micro level enumerates the goroutine interleavings "
+             "of one cascade up to its deviation bound.",
         technique="explicit-state BFS over message/ending interleavings on the implementation (virtual time)",
         design_ref="5/C06", engine="A-macro"),
     "C07": dict(
@@ -213,7 +218,10 @@ CLAIMED = {
              "table {local stream present / closed-but-registered / absent} x {remote owner with stream / peer known without a stream for "
              "the pair / owner without peer state / unknown / owner without address} x {message, ack with and without forwarding} through the "
              "real DeliverMessagesToShardOwner / DeliverAckToShardOwner and intraProxyManager with fake intra-proxy streams: true <=> exactly "
-             "one copy handed to exactly one recipient (local first), false <=> nothing handed over.",
+             "one copy handed to exactly one recipient (local first), false <=> nothing handed over. Conformance: two real instances on a "
+             "real hashicorp/memberlist (MockNetwork transport): join merges state, RegisterShard emits exactly one reliable message with the "
+             "transcribed payload, a newer claim evicts through memberlist's own receive path, Leave returns and is observed (this run found "
+             "the NotifyLeave self-deadlock, fixed in /repo).",
         note="memberlist itself is the environment (reliable send, push/pull, leave detection are assumed as the statement says); the sending "
              "half of an announcement (broadcastShardChange needs a live memberlist) is transcribed in the harness. One clock, atomic claims, "
              "full mutual knowledge before the first claim. Bounds: <=3 instances, <=2 shards, <=3 application actions, <=1-2 snapshots, <=1 leave.",
@@ -315,7 +323,7 @@ def main():
              "kind_free_text": "explicit-state / bounded-exhaustive enumeration driving the real code in-package"},
             {"name": "B-enum", "path": "/verif/harness", "serves_properties": ["C07", "C12", "C13", "C14", "C15", "C16", "C17", "C18", "C19"],
              "kind_free_text": "bounded-exhaustive enumeration of a finite structurally defined input space against a reference computed independently"},
-            {"name": "A-micro", "path": "/verif/rt/sched.go + /verif/instr (vinstr) + /verif/harness/proxy/c08_registry.go", "serves_properties": ["C01", "C02", "C03", "C04", "C08", "C10", "C11"],
+            {"name": "A-micro", "path": "/verif/rt/sched.go + /verif/instr (vinstr) + /verif/harness/proxy/c08_registry.go", "serves_properties": ["C01", "C02", "C03", "C04", "C06", "C08", "C10", "C11"],
              "kind_free_text": "cooperative scheduler over AST-rewritten sources (locks, channel ops, go statements become scheduling points); "
                                "stateless depth-first enumeration of schedules with preemption bounding, one synctest bubble per schedule"},
             {"name": "A-macro", "path": "/verif/harness/proxy/routing_*.go + /verif/rt/pool.go", "serves_properties": ["C01", "C02", "C03", "C04", "C06", "C09", "C10", "C11", "C20"],
